@@ -63,3 +63,35 @@ clean:
 	rm -rf $(VERIF)build
 
 -include $(wildcard $(B)/asan/*.d) $(wildcard $(B)/opt/*.d) $(wildcard $(B)/*/*.d)
+
+# ---- C03: the same harness source in four build variants (library PUBLIC flags / ASan) x (with / without
+# PHOTOSPLINE_NO_EVAL_TEMPLATES).  bin/C03 is the primary (opt, templates).
+$(B)/opt/h_C03.o: $(VERIF)checks/C03.cpp $(wildcard $(VERIF)engine/*.hpp)
+	@mkdir -p $(dir $@)
+	$(CXX) $(OPT_CXX) $(INC) $(DEFS) -DC03_VARIANT='"opt+templates"' -MMD -c $< -o $@
+$(B)/opt/h_C03nt.o: $(VERIF)checks/C03.cpp $(wildcard $(VERIF)engine/*.hpp)
+	@mkdir -p $(dir $@)
+	$(CXX) $(OPT_CXX) $(INC) $(DEFS) -DPHOTOSPLINE_NO_EVAL_TEMPLATES -DC03_VARIANT='"opt+no-templates"' -MMD -c $< -o $@
+$(B)/optnt/cinter.o: $(REPO)/src/cinter/splinetable.cpp
+	@mkdir -p $(dir $@)
+	$(CXX) $(OPT_CXX) $(INC) $(DEFS) -DPHOTOSPLINE_NO_EVAL_TEMPLATES -MMD -c $< -o $@
+$(B)/asan/h_C03nt.o: $(VERIF)checks/C03.cpp $(wildcard $(VERIF)engine/*.hpp)
+	@mkdir -p $(dir $@)
+	$(CXX) $(ASAN_CXX) $(INC) $(DEFS) -DPHOTOSPLINE_NO_EVAL_TEMPLATES -DC03_VARIANT='"asan+no-templates"' -MMD -c $< -o $@
+$(B)/asan/h_C03asan.o: $(VERIF)checks/C03.cpp $(wildcard $(VERIF)engine/*.hpp)
+	@mkdir -p $(dir $@)
+	$(CXX) $(ASAN_CXX) $(INC) $(DEFS) -DC03_VARIANT='"asan+templates"' -MMD -c $< -o $@
+$(B)/bin/C03: $(B)/opt/h_C03.o $(OPT_LIBOBJS)
+	@mkdir -p $(dir $@)
+	$(CXX) -o $@ $^ $(LIBS)
+$(B)/bin/C03nt: $(B)/opt/h_C03nt.o $(filter-out %/cinter.o,$(OPT_LIBOBJS)) $(B)/optnt/cinter.o
+	@mkdir -p $(dir $@)
+	$(CXX) -o $@ $^ $(LIBS)
+$(B)/bin/C03asan: $(B)/asan/h_C03asan.o $(ASAN_LIBOBJS)
+	@mkdir -p $(dir $@)
+	$(CXX) $(SAN) -o $@ $^ $(LIBS)
+$(B)/bin/C03asannt: $(B)/asan/h_C03nt.o $(ASAN_LIBOBJS)
+	@mkdir -p $(dir $@)
+	$(CXX) $(SAN) -o $@ $^ $(LIBS)
+harness-C03: $(B)/bin/C03 $(B)/bin/C03nt $(B)/bin/C03asan $(B)/bin/C03asannt
+	@true
